@@ -171,12 +171,16 @@ def failReset (s : BSt) (i : Nat) : BSt :=
                 else s!"n:blocked:{(s.th i).fail}:a{(s.th i).actor}"))
     with reported := s.reported + (s.th i).fail }
 
-/-- what a state predicate must be closed under for the skeleton to carry it through every schedule -/
-structure Closed (P : BSt → Prop) : Prop where
+/-- closure under the backend's housekeeping (emptiness checks, cache refresh, context and logger clean-up) -/
+structure ClosedH (P : BSt → Prop) : Prop where
   frame : ∀ s s', P s → Frame s s' → P s'
   refresh : ∀ s, P s → P (refreshCache s)
   ctxEmpty : ∀ s i, P s → P (ctxEmpty s i).1
-  dropCtx : ∀ s i, P s → (s.th i).valid = false → (Backend.ctxEmpty s i).2 = true → P (dropCtx (Backend.ctxEmpty s i).1 i)
+  dropCtx : ∀ s i, P s → (s.th i).valid = false → (Backend.ctxEmpty s i).2 = true →
+    (s.cfg.cleanupKeepsUnreported = true → (s.th i).fail = 0) → P (dropCtx (Backend.ctxEmpty s i).1 i)
+
+/-- what a state predicate must be closed under for the skeleton to carry it through every schedule -/
+structure Closed (P : BSt → Prop) : Prop extends ClosedH P where
   prepRead : ∀ s i, P s → P (s.setTh i (fun t => { t with q := (qPrepareRead s.cfg (s.th i).q).1 }))
   commitRead : ∀ s i, P s → P (s.setTh i (fun t => { t with q := qCommitRead s.cfg t.q }))
   readOne : ∀ s i st rest, P s → (s.th i).qStmts = st :: rest → (qPrepareRead s.cfg (s.th i).q).2 = true →
@@ -187,14 +191,14 @@ structure Closed (P : BSt → Prop) : Prop where
 
 variable {P : BSt → Prop}
 
-theorem allEmpty_closed (hc : Closed P) (s : BSt) (h : P s) : P (allEmpty s).1 := by
+theorem allEmpty_closed (hc : ClosedH P) (s : BSt) (h : P s) : P (allEmpty s).1 := by
   unfold allEmpty
   dsimp only
   refine foldl_inv (fun a : BSt × Bool => P a.1) _ ?_ _ _ (hc.refresh s h)
   intro a i ha
   exact hc.ctxEmpty a.1 i ha
 
-theorem hasPending_closed (hc : Closed P) (s : BSt) (h : P s) : P (hasPending s).1 := by
+theorem hasPending_closed (hc : ClosedH P) (s : BSt) (h : P s) : P (hasPending s).1 := by
   unfold hasPending
   dsimp only
   refine foldl_inv (fun a : BSt × Bool => P a.1) _ ?_ _ _ (hc.refresh s h)
@@ -205,10 +209,11 @@ theorem hasPending_closed (hc : Closed P) (s : BSt) (h : P s) : P (hasPending s)
     · exact hc.ctxEmpty a.1 i ha
     · exact ha
 
-theorem findFirst_closed (hc : Closed P) : ∀ (l : List Nat) (s : BSt), P s →
+theorem findFirst_closed (hc : ClosedH P) : ∀ (l : List Nat) (s : BSt), P s →
     P (cleanupContexts.go.findFirst s l).1 ∧
     ∀ i, (cleanupContexts.go.findFirst s l).2 = some i →
       ∃ s', P s' ∧ (s'.th i).valid = false ∧ (Backend.ctxEmpty s' i).2 = true ∧
+        (s'.cfg.cleanupKeepsUnreported = true → (s'.th i).fail = 0) ∧
         (cleanupContexts.go.findFirst s l).1 = (Backend.ctxEmpty s' i).1
   | [], s, h => ⟨h, fun i hi => by simp [cleanupContexts.go.findFirst] at hi⟩
   | j :: rest, s, h => by
@@ -223,10 +228,12 @@ theorem findFirst_closed (hc : Closed P) : ∀ (l : List Nat) (s : BSt), P s →
         simp only [Option.some.injEq] at hi
         subst hi
         simp only [Bool.and_eq_true] at he
-        exact ⟨s, h, by simpa using hv, he.1, rfl⟩
+        refine ⟨s, h, by simpa using hv, he.1, fun hk => ?_, rfl⟩
+        have := he.2
+        simpa [hk] using this
       · exact findFirst_closed hc rest _ (hc.ctxEmpty s j h)
 
-theorem cleanupGo_closed (hc : Closed P) : ∀ (fuel : Nat) (s : BSt), P s → P (cleanupContexts.go fuel s)
+theorem cleanupGo_closed (hc : ClosedH P) : ∀ (fuel : Nat) (s : BSt), P s → P (cleanupContexts.go fuel s)
   | 0, s, h => by unfold cleanupContexts.go; exact h
   | fuel + 1, s, h => by
     unfold cleanupContexts.go
@@ -235,18 +242,18 @@ theorem cleanupGo_closed (hc : Closed P) : ∀ (fuel : Nat) (s : BSt), P s → P
     · next s1 heq => rw [heq] at hf; exact hf.1
     · next s1 i heq =>
       rw [heq] at hf
-      obtain ⟨s', hp, hv, he, hs1⟩ := hf.2 i rfl
+      obtain ⟨s', hp, hv, he, hz, hs1⟩ := hf.2 i rfl
       dsimp only at hs1
       subst hs1
-      exact cleanupGo_closed hc fuel _ (hc.dropCtx s' i hp hv he)
+      exact cleanupGo_closed hc fuel _ (hc.dropCtx s' i hp hv he hz)
 
-theorem cleanupContexts_closed (hc : Closed P) (s : BSt) (h : P s) : P (cleanupContexts s) := by
+theorem cleanupContexts_closed (hc : ClosedH P) (s : BSt) (h : P s) : P (cleanupContexts s) := by
   unfold cleanupContexts
   split
   · exact h
   · exact cleanupGo_closed hc _ s h
 
-theorem cleanupLoggers_closed (hc : Closed P) (s : BSt) (h : P s) : P (cleanupLoggers s) := by
+theorem cleanupLoggers_closed (hc : ClosedH P) (s : BSt) (h : P s) : P (cleanupLoggers s) := by
   unfold cleanupLoggers
   split
   · exact h
@@ -402,7 +409,7 @@ theorem processLowest_closed (hc : Closed P) (inj : BSt → Nat → BSt) (hinj :
           split
           · exact checkFailures_closed hc inj hinj _ h3
           · exact h3
-        exact hc.frame _ _ (cleanupContexts_closed hc _ h3')
+        exact hc.frame _ _ (cleanupContexts_closed hc.toClosedH _ h3')
           (Frame.of_eq rfl rfl rfl rfl rfl rfl rfl rfl rfl rfl rfl rfl rfl (fun _ hf => List.mem_cons_of_mem _ hf))
       · exact h3
 
@@ -412,7 +419,7 @@ theorem batchLoop_closed (hc : Closed P) (inj : BSt → Nat → BSt) (hinj : ∀
   | fuel + 1, s, h => by
     unfold batchLoop
     dsimp only
-    have h1 := hasPending_closed hc s h
+    have h1 := hasPending_closed hc.toClosedH s h
     split
     · exact h1
     · have h2 := processLowest_closed hc inj hinj _ h1
@@ -432,9 +439,9 @@ theorem poll_closed (hc : Closed P) (inj : BSt → Nat → BSt) (hinj : ∀ s si
     · exact processLowest_closed hc inj hinj _ h1
     · exact batchLoop_closed hc inj hinj _ _ h1
   · have h3 := checkFailures_closed hc inj hinj _ (hc.frame _ _ (hinj _ 5 h1) (flushSinks_frame _))
-    have h4 := allEmpty_closed hc _ h3
+    have h4 := allEmpty_closed hc.toClosedH _ h3
     split
-    · exact cleanupLoggers_closed hc _ (cleanupContexts_closed hc _ h4)
+    · exact cleanupLoggers_closed hc.toClosedH _ (cleanupContexts_closed hc.toClosedH _ h4)
     · exact h4
 
 theorem exitLoop_closed (hc : Closed P) (inj : BSt → Nat → BSt) (hinj : ∀ s site, P s → P (inj s site))
@@ -443,9 +450,9 @@ theorem exitLoop_closed (hc : Closed P) (inj : BSt → Nat → BSt) (hinj : ∀ 
   | fuel + 1, s, h => by
     unfold exitLoop
     dsimp only
-    have h1 := allEmpty_closed hc s h
+    have h1 := allEmpty_closed hc.toClosedH s h
     split
-    · exact cleanupLoggers_closed hc _ (cleanupContexts_closed hc _
+    · exact cleanupLoggers_closed hc.toClosedH _ (cleanupContexts_closed hc.toClosedH _
         (hc.frame _ _ (checkFailures_closed hc inj hinj _ h1) (flushSinks_frame _)))
     · have h0 : P { (allEmpty s).1 with now := (allEmpty s).1.now + tick } :=
         hc.frame _ _ h1 (Frame.of_eq rfl rfl rfl rfl rfl rfl rfl rfl rfl rfl rfl rfl rfl (fun _ h => h))
